@@ -139,6 +139,15 @@ impl Planted {
         let q = self.point(px + s * (0.3 + 0.7 * rng.unit()), py + s * (0.3 + 0.7 * rng.unit()));
         (p, q)
     }
+    /// An axis-aligned segment (the commonest thing in a sketch): a point and a fresh point exactly
+    /// above it (`vertical`) or exactly to its right.
+    fn axis_segment(&mut self, rng: &mut Rng, vertical: bool) -> (DatumPoint, DatumPoint) {
+        let p = self.any_point(rng);
+        let (px, py) = self.xy(&p);
+        let len = self.scale * (0.3 + 0.7 * rng.unit()) * if rng.chance(1, 2) { 1.0 } else { -1.0 };
+        let q = if vertical { self.point(px, py + len) } else { self.point(px + len, py) };
+        (p, q)
+    }
     fn any_circle(&mut self, rng: &mut Rng) -> DatumCircle {
         if self.circles.is_empty() || rng.chance(1, 3) {
             let (x, y) = self.rand_xy(rng);
@@ -295,7 +304,7 @@ impl Planted {
                 self.cons.push(Constraint::Midpoint(DatumLineSegment::new(p, q), m));
             }
             "PointLineDistance" => {
-                let (p, q) = self.two_points(rng);
+                let (p, q) = if rng.chance(1, 4) { let v = rng.chance(1, 2); self.axis_segment(rng, v) } else { self.two_points(rng) };
                 let a = self.any_point(rng);
                 let (px, py) = self.xy(&p);
                 let (qx, qy) = self.xy(&q);
@@ -305,7 +314,8 @@ impl Planted {
                 self.cons.push(Constraint::PointLineDistance(a, DatumLineSegment::new(p, q), d));
             }
             "VerticalPointLineDistance" => {
-                let (p, q) = self.two_points(rng);
+                // height above a line: the line may be exactly horizontal (well-posed), never vertical
+                let (p, q) = if rng.chance(1, 3) { self.axis_segment(rng, false) } else { self.two_points(rng) };
                 let a = self.any_point(rng);
                 let (px, py) = self.xy(&p);
                 let (qx, qy) = self.xy(&q);
@@ -319,7 +329,8 @@ impl Planted {
                 ));
             }
             "HorizontalPointLineDistance" => {
-                let (p, q) = self.two_points(rng);
+                // offset from a line: the line may be exactly vertical (well-posed), never horizontal
+                let (p, q) = if rng.chance(1, 3) { self.axis_segment(rng, true) } else { self.two_points(rng) };
                 let a = self.any_point(rng);
                 let (px, py) = self.xy(&p);
                 let (qx, qy) = self.xy(&q);
